@@ -540,3 +540,74 @@ def run_plan(plan, prop):
     findings = []
     _, _, summary = run_one(plan['scenario'], plan['sched'], (prop,), st, findings, 'replay')
     return findings, summary
+
+
+def run_race(task):
+    """Admission race enumeration.  The checks a connection thread makes against the shared seat
+    table (seat free? partner's team the same?) and its write into that table are plain
+    statements with no synchronisation operation between them, so only a thread frozen IN THE
+    MIDDLE of that code can show whether two requests that compete -- for one seat, or as
+    partners under different team names -- can both be seated.  One small storm with such a pair
+    arriving first; then every connection thread x every source line m = 1..LINES of server.py
+    counted from the thread's start: that thread frozen there until everything else has come to
+    rest.  (With the serial admission of the pinned tree the second request is not even read
+    before the first has its verdict; a table manager that handles requests concurrently must
+    make check-and-seat atomic.)"""
+    props = tuple(task['props'])
+    rng = random.Random(f's2race/{task["seed"]}')
+    st = s1.new_stats()
+    findings = []
+    scn = gen_s2(rng, 4)
+    scn['prelude'] = None
+    scn['script'] = gen.gen_script(rng, scn['boards'], style='allpass')
+    seat = rng.choice(rb.SEATS)
+    t1 = gen.gen_team_name(rng)
+    t2 = gen.gen_team_name(rng, forbid=[t1])
+    rq = scn['requests']
+    for r in rq:
+        r.update(version=18, linger=False, kind='scripted')
+        r.pop('impatient', None)
+    if task['seed'] % 2 == 0:
+        # two acceptable requests for the same seat
+        rq[0].update(seat=seat, team=t1)
+        rq[1].update(seat=seat, team=t1)
+        what = 'two requests for one seat'
+    else:
+        # partners under different team names
+        rq[0].update(seat=seat, team=t1)
+        rq[1].update(seat=rb.partner(seat), team=t2)
+        what = 'partners under different team names'
+    scn['connect_order'] = list(range(len(rq)))
+    base = session.default_sched()
+    base['label'] = 'fifo'
+    info, sample, _ = run_one(scn, base, props, st, findings, 's2race:fifo')
+    points = 0
+    LINES = 45
+    if not findings:
+        pts = [r for r in info['roles'] if r.startswith('pt:')][:3]
+        for role in pts:
+            for m in range(1, LINES + 1):
+                sched = dict(base)
+                sched['stalls'] = [{'role': role, 'index': None, 'duration': None,
+                                    'after_kind': None, 'after_n': None, 'after_obj': None,
+                                    'lines': m, 'origin': 'start:network_bridge/server.py'}]
+                sched['label'] = 'fifo+linestall'
+                s1.set_budgets(sched, info)
+                run_one(scn, sched, props, st, findings, 's2race:linestall')
+                points += 1
+                if len(findings) > 10:
+                    break
+            if len(findings) > 10:
+                break
+    st['exhaustive'] = {'requests': len(rq), 'competing_pair': what,
+                        'line_stall_points_enumerated': points,
+                        'what': 'one admission storm opened by a competing pair: each of the '
+                                'first three connection threads frozen at every one of its first '
+                                f'{LINES} source lines of server.py until all else has quiesced'}
+    seen = set()
+    keep = []
+    for f in findings:
+        if f['key'] not in seen:
+            seen.add(f['key'])
+            keep.append(f)
+    return {'stats': st, 'findings': keep[:10], 'samples': [sample], 'nfindings': len(findings)}
